@@ -220,6 +220,8 @@ def run(ctx):
         'the viewer cannot know X: its verdict is compared with the configuration semantics without rates, i.e. with what the uploader drops whatever X is',
         'reports posted to the server carry a valid Week, a semver Config and 0 < X < 1 (request validation other than approval belongs to C12)',
         'viewer: only files/newCounterFile/summary (counter files); the charts page is not part of the statement',
+        'viewer process lifetime: three consecutive cases form one viewer session (one Server, one -config file rewritten before each page load, configuration obtained as the index page does: Server.configAt("latest")); '
+        'each load is judged under the configuration current at that load',
         'stack frames avoid the ditto form so that counter.DecodeStack is the identity (C15)',
         'the summary sentence names excluded stacks by their first line only; it is compared as the set of first lines',
     ]
@@ -383,9 +385,9 @@ def run(ctx):
     vcases = []
     for i, v in enumerate(fvecs):
         fs = sorted(v['files'], key=lambda f: f['id'])
-        vcases.append({'id': i, 'cfg': A.concrete_cfg(v['cfg'], v['d']), 'files': [dict(A.concrete_file(f), fid=f['id']) for f in fs if f['counts']]})
+        vcases.append({'id': i, 'session': 'v%d' % (i // 3), 'cfg': A.concrete_cfg(v['cfg'], v['d']), 'files': [dict(A.concrete_file(f), fid=f['id']) for f in fs if f['counts']]})
     for k, c in enumerate(rcases):
-        vcases.append({'id': len(fvecs) + k, 'cfg': A.concrete_cfg(c['cfg'], A.D_RND), 'files': [dict(A.concrete_file(f), fid=f['id']) for f in c['files']]})
+        vcases.append({'id': len(fvecs) + k, 'session': 'r%d' % (k // 3), 'cfg': A.concrete_cfg(c['cfg'], A.D_RND), 'files': [dict(A.concrete_file(f), fid=f['id']) for f in c['files']]})
     recs, rc, out = ctx.run_harness('./cmd/gotelemetry/internal/view', 'TestVerifC11Viewer', inp={'cases': vcases}, timeout=2400)
     frecs = {}
     for r in recs:
